@@ -100,7 +100,7 @@ build_one() {
     if [ ! -x "$bin" ]; then
       extra_inc=""
       if [ "$engine" = "updsim" ]; then extra_inc="-I$VERIF/shim -DCPPHTTPLIB_OPENSSL_SUPPORT"; fi
-      $cc $common $extra_inc -DVERIF_FLAVOUR="\"$flavour\"" -DVERIF_REPO_SRC="\"$SRC\"" "$VERIF/sim/engines/$engine.cpp" "${objs[@]:-}" $(link_extra "$engine") -o "$bin.tmp"
+      $cc $extra_inc $common -DVERIF_FLAVOUR="\"$flavour\"" -DVERIF_REPO_SRC="\"$SRC\"" "$VERIF/sim/engines/$engine.cpp" ${objs[@]+"${objs[@]}"} $(link_extra "$engine") -o "$bin.tmp"
       mv "$bin.tmp" "$bin"
       # drop older binaries of this engine in this dir
       ls -1t "$dir/$engine"-* 2>/dev/null | grep -v '\.tmp$' | tail -n +3 | xargs -r rm -f
